@@ -114,7 +114,7 @@ class Ctx:
 
     # ---------------------------------------------------------------- TLC
     def tlc(self, module, cfg, name=None, extra=None, timeout=1800, workers="auto", files=None,
-            defines=None, simulate=None, depth=None, heap=None, deque=False, coverage=False):
+            defines=None, simulate=None, depth=None, heap=None, deque=False, coverage=False, env=None):
         """Run TLC on spec/<module>.tla with spec/<cfg> inside a private scratch copy of spec/.
 
         files: dict name->content or name->src path copied into the scratch dir (traces, tables).
@@ -161,7 +161,7 @@ class Ctx:
         args.append(module + ".tla")
         t = time.time()
         try:
-            r = subprocess.run(args, cwd=d, capture_output=True, text=True, timeout=timeout)
+            r = subprocess.run(args, cwd=d, capture_output=True, text=True, timeout=timeout, env=dict(os.environ, **(env or {})))
         except subprocess.TimeoutExpired:
             subprocess.run(["pkill", "-f", "tlc2.TL[C].*" + re.escape(meta)])
             raise Inconclusive("TLC timeout on %s/%s" % (module, cfgname))
@@ -171,10 +171,11 @@ class Ctx:
 
     # ---------------------------------------------------------------- findings
     def findings(self):
-        p = os.path.join(VERIF, "known_findings.json")
-        if not os.path.exists(p):
-            return []
-        return [f for f in json.load(open(p))["findings"] if f["property"] == self.pid]
+        out = []
+        for p in [os.path.join(VERIF, "known_findings.json")] + sorted(glob.glob(os.path.join(VERIF, "known_findings.d", "*.json"))):
+            if os.path.exists(p):
+                out += [f for f in json.load(open(p))["findings"] if f["property"] == self.pid]
+        return out
 
     def allowed(self):
         """names of listed, not repaired findings for this property"""
